@@ -68,6 +68,8 @@ def plan(tier, seed):
         shards.append({'name': 'ed_%d' % i, 'kind': 'ed', 'configs': cfgs[i::3],
                        'nb': 300 if tier == 'quick' else 3000, 'seed': seed * 1000 + 44 + i})
     shards.append({'name': 'ar', 'kind': 'ar', 'S': 4 if tier == 'quick' else 5})
+    sizes = [300, 33000, 66000] if tier == 'quick' else [260, 300, 32770, 40000, 65540, 70000, 140000]
+    shards.append({'name': 'huge', 'kind': 'huge', 'sizes': sizes})
     for i in range(2):
         shards.append({'name': 'rt_%d' % i, 'kind': 'rt', 'n': 500 if tier == 'quick' else 6000,
                        'seed': seed * 1000 + 48 + i})
@@ -332,7 +334,8 @@ def run_case(case, rec, ssj=None, cache=None):
         k = int(call['threshold'])
         req = required_pairs_ed(ev, k)
         kind = rng.choice(SAFE_FILTERS)
-        check_filter(ssj, base, {'kind': kind, 'measure': 'EDIT_DISTANCE', 'threshold': k}, req,
+        kf = k + rng.choice([0, 0, 0.0, 0.5])        # distance <= k + 0.5 is distance <= k
+        check_filter(ssj, base, {'kind': kind, 'measure': 'EDIT_DISTANCE', 'threshold': kf}, req,
                      ev.view, rec, case, classify=classify)
         return {'required': len(req)}
     if g == 'ar':
@@ -360,6 +363,19 @@ def run_case(case, rec, ssj=None, cache=None):
         check_filter(ssj, base, {'kind': 'SuffixFilter', 'measure': m, 'threshold': t}, req, view, rec,
                      case, apis=('tables',), classify=classify)
         return {'required': len(req)}
+    if g == 'huge':
+        n, m, t = case['n'], case['measure'], case['threshold']
+        L, R = gen.huge_tables(n)
+        base = base_call(L, R, {'kind': 'ws', 'return_set': True}, n_jobs=case.get('n_jobs', 1))
+        view = oracle.TableView(dict(base))
+        req = required_pairs(view, m, t)
+        for kind in SAFE_FILTERS:
+            check_filter(ssj, base, {'kind': kind, 'measure': m, 'threshold': t}, req, view, rec, case,
+                         classify=classify)
+        if m == 'OVERLAP':
+            check_filter(ssj, base, {'kind': 'OverlapFilter', 'overlap_size': t, 'comp_op': '>='}, req,
+                         view, rec, case)
+        return {'required': len(req)}
     if g == 'rt':
         rng = random.Random(case['seed'])
         tok = gen.random_tokenizer(rng, allow_bag=False)
@@ -369,7 +385,7 @@ def run_case(case, rec, ssj=None, cache=None):
         view = oracle.TableView(dict(base))
         r = rng.random()
         if r < 0.2:
-            k = rng.choice([1, 1, 2, 3])
+            k = rng.choice([1, 1, 2, 3, 1.0, 1.5, 2.5])     # (float sizes: crashed before the repair of F12)
             fspec = {'kind': rng.choice(SAFE_FILTERS + ('OverlapFilter',)), 'measure': 'OVERLAP',
                      'threshold': k, 'overlap_size': k, 'comp_op': '>='}
             req = required_pairs(view, 'OVERLAP', k)
@@ -454,6 +470,20 @@ def run_shard(shard, rec):
                 rec.count('required', st['required'])
                 rec.case(sig=('ar_suffix', 3, m, t), nontrivial=st['required'] > 0)
         rec.sample({'workload': 'AR', 'S': S, 'thresholds': len(ths)}, limit=1)
+    elif kind == 'huge':
+        for x, n in enumerate(shard['sizes']):
+            for y, (m, t) in enumerate([('JACCARD', 0.9), ('COSINE', 0.95), ('DICE', 0.5), ('OVERLAP', n - 10),
+                                        ('JACCARD', 0.3)]):
+                if rec.tier == 'quick' and (x + y) % 2 and m != 'JACCARD':
+                    continue
+                case = {'gen': 'huge', 'n': n, 'measure': m, 'threshold': t, 'n_jobs': 1 + (x + y) % 2}
+                st = run_case(case, rec, ssj, cache)
+                rec.count('required', st['required'])
+                rec.count('huge_cases')
+                rec.case(sig=('huge', n, m, t), nontrivial=st['required'] > 0, n=4)
+        rec.add('huge_sizes', tuple(shard['sizes']))
+        rec.sample({'workload': 'HUGE', 'sizes': shard['sizes'], 'note': 'one pair of records with n '
+                    'tokens sharing all but 3, beyond 2**8 / 2**15 / 2**16 tokens'}, limit=1)
     elif kind == 'rt':
         for i in range(shard['n']):
             case = {'gen': 'rt', 'seed': shard['seed'] * 100000 + i}
